@@ -96,7 +96,7 @@ def jack_matmul(*operands):
                                       import_jackknife(entry.imag, name, [idl]))
         return base_matrix
 
-    if any(isinstance(o.flat[0], CObs) for o in operands):
+    if any(isinstance(o.flat[0], CObs) or (o.dtype != object and np.iscomplexobj(o)) for o in operands):
         first = [o.flat[0] for o in operands if isinstance(o.flat[0], (Obs, CObs))][0]
         if isinstance(first, CObs):
             first = first.real
